@@ -59,8 +59,21 @@ LEAK = ('let', 'x', ANY, ('let', 'y', ANY, ('fail',)))     # binds both names to
 
 def programs(tier):
     """(tag, start expr, extra rules)"""
-    nb, nu, dp = (2, 2, 3) if tier == 'quick' else (3, 3, 4)
-    closed = [b for b, _, _, _ in bodies({}, frozenset(), nb, nu, dp)]
+    # quick: <=2 binders, <=2 uses; thorough: (<=2 binders, <=3 uses) and (<=3 binders, <=2 uses); depth <=3
+    cfgs = [(2, 2, 3)] if tier == 'quick' else [(2, 3, 3), (3, 2, 3)]
+    nb, nu, dp = cfgs[0]
+
+    def union(env, shrink):
+        seen = set()
+        out = []
+        for (b_, u_, d_) in cfgs:
+            for x, _, _, _ in bodies(env, frozenset(), b_ - shrink, u_, d_ - shrink):
+                k = repr(x)
+                if k not in seen:
+                    seen.add(k)
+                    out.append(x)
+        return out
+    closed = union({}, 0)
     for p in closed:
         yield 'top', p, []
         yield 'after-abandoned', ('choice', LEAK, p), []
@@ -68,7 +81,7 @@ def programs(tier):
         yield 'template-body', ('call', 'B', [('str', 'q')], []), [('B', ('rule', ['q'], p))]
     # bodies with x already bound (by an enclosing let, a parameter, a class field)
     for vk in ('S', 'I'):
-        openx = [b for b, _, _, _ in bodies({'x': vk}, frozenset(), nb - 1, nu, dp - 1)]
+        openx = union({'x': vk}, 1)
         other = 'I' if vk == 'S' else 'S'
         for p in openx:
             # an abandoned alternative shadowed x before failing
@@ -121,7 +134,7 @@ AFTER = [('UsesXY', ('rule', None, ('seq', ('ref', 'x'), ('opt', ('ref', 'y'))))
 
 
 def jobs(tier):
-    inp = 'ab02;:4' if tier == 'quick' else 'ab012;:5'
+    inp = 'ab02;:4' if tier == 'quick' else 'ab012;:4'
     for tag, e, extra in programs(tier):
         rules = [('start', ('rule', None, e))] + TMPL + list(extra) + AFTER
         mods = [(tuple(rules), (), 'start', None, (), False, 'named', None)]
@@ -140,12 +153,12 @@ def jobs(tier):
 
 def run(tier, seed):
     chk = Check('C05', tier, seed)
-    chk.rule = ('binding programs: all bodies with <=2 (thorough <=3) let binders and <=2 (3) uses over names {x,y} bound to a string or '
+    chk.rule = ('binding programs: all bodies with <=2 let binders and <=2 uses (thorough: <=2/<=3 and <=3/<=2), nesting depth <=3, over names {x,y} bound to a string or '
                 'an int, uses = inline Python, pair, where-predicate, repetition counts, template argument; each closed body placed at top '
                 'level, after an abandoned alternative that bound both names, under *, in a template body; each body with free x placed '
                 'after a shadowing abandoned alternative, in a directly recursive rule, under a rule parameter, class field, let field, '
                 'repeated class, class parameter; requires/pass/let members; where, |>, <| over predicate/function menus under *, |, ?; '
-                'x all inputs over {a,b,0,1,2,;} up to length 4/5; non-trivial = the model run needed a restore')
+                'x all inputs over {a,b,0,2,;} (thorough {a,b,0,1,2,;}) up to length 4; non-trivial = the model run needed a restore')
     chk.assumptions = ['reference interpreter with lexical environments',
                        'scoping is lexical: after the end of an inner let that shadowed a name, the name denotes the outer binding again']
     chk.explore(e1.run_job, jobs(tier), chunk=8)
